@@ -130,7 +130,7 @@ def restore_player(ctx, league, name, path, ids_seen=None, check=False):
     """Rebuild one player from the durable store through `path`. Returns the new object."""
     old = league.players.get(name)
     if path == "deepcopy" and old is not None:
-        new = copy.deepcopy(old)
+        new = copy.deepcopy(old) if len(name) % 2 else copy.deepcopy(old, {})  # with / without an explicit memo
         if check:
             if new is old:
                 ctx.violation("C20/deepcopy:identity", {"name": name})
@@ -212,6 +212,8 @@ def exec_new(ctx, league, op):
         kw["label"] = op["label"]
     if "clone_of" in op:
         kw["clone_of"] = op["clone_of"]
+    if op.get("positional"):
+        kw["positional"] = True
     if "mu" in op:
         kw.update(mu=dec(op["mu"]), has_mu=True)
     if "sigma" in op:
@@ -234,7 +236,7 @@ def prepare_call(ctx, league, op):
     if op["op"] == "RATE":
         tau_eff = dec(op["tau"]) if "tau" in op else dec(league.cfg["kwargs"]["tau"])
         lim_eff = op["limit_sigma"] if "limit_sigma" in op else bool(league.cfg["kwargs"]["limit_sigma"])
-        rs = league.reseed_out_of_domain(names, tau_zero=(tau_eff == 0), limit=bool(lim_eff))
+        rs = league.reseed_out_of_domain(names, tau_zero=(tau_eff * tau_eff == 0), limit=bool(lim_eff))
     else:
         rs = league.reseed_out_of_domain(names, tau_zero=True)
     if rs:
@@ -680,7 +682,7 @@ class CallsDriver:
             ids = id_mode(rec["snap"])
             lib = self.lib()
             if op["op"] == "RATE":
-                ref = ref_rate(cfg, rec["snap"], rate_kwargs(op), "iso%d" % ctx.i, stats=ctx.stats, lib=lib, ids=ids)
+                ref = ref_rate(cfg, rec["snap"], rate_kwargs(op), "iso%d" % ctx.i, stats=ctx.stats, lib=lib, ids=ids, warm=(h64(rec["snap"]) % 3 == 1))
             else:
                 ref = ref_predict(cfg, rec["snap"], op["kind"], "iso%d" % ctx.i, stats=ctx.stats, lib=lib, ids=ids)
             ctx.evaluations += 1
@@ -695,7 +697,7 @@ class CallsDriver:
             kw = rate_kwargs(op)
             t = kw.pop("tau", None)
             b = kw.pop("limit_sigma", None)
-            ref = ref_rate(cfg, rec["snap"], kw, "cfg%d" % ctx.i, tau=t, limit_sigma=b, stats=ctx.stats, lib=self.lib())
+            ref = ref_rate(cfg, rec["snap"], kw, "cfg%d" % ctx.i, tau=t, limit_sigma=b, stats=ctx.stats, lib=self.lib(), warm=(h64(rec["snap"]) % 3 == 0))
             ctx.evaluations += 1
             if ref != out:
                 cls = self.classify_c15(rec, kw, t, b, out)
@@ -942,7 +944,7 @@ def c06_params(rng):
         "opt_rate": rng.choice([0.0, 0.15, 0.4]),
         "maker": rng.choice(["random", "closest", "farthest", "farthest"]),
         "rule": rng.choice(["uniform", "skill", "upset", "upset", "tie", "tie"]),
-        "shape": rng.choice([[2, 1], [2, 2], [4, 3], [8, 8], [3, 1]]),
+        "shape": rng.choice([[2, 1], [2, 2], [4, 3], [8, 8], [3, 1], [6, 2], [7, 1], [5, 3], [8, 2]]),
         "p_restart": rng.choice([0.0, 0.02, 0.1]),
     }
 
@@ -1097,7 +1099,7 @@ def c13_params(rng):
         "players": rng.choice([8, 12]),
         "population": rng.choice(["default", "mixed", "spread"]),
         "inject_every": rng.choice([2, 3, 5]),
-        "shape": rng.choice([[2, 1], [2, 2], [3, 2], [3, 3], [4, 2], [5, 1], [6, 2], [7, 1], [8, 8], [10, 1], [2, 10]]),
+        "shape": rng.choice([[2, 1], [2, 2], [3, 2], [3, 3], [4, 2], [5, 1], [6, 2], [7, 1], [8, 8], [10, 1], [2, 10], [12, 1]]),
         "opt_rate": 0.2,
     }
 
@@ -1507,6 +1509,9 @@ class StoreDriver:
         ctx = self.ctx
         B = self.B
         B.lib = core.fresh_models(instrument=True)
+        if core.SimClock.current is not None and len(self.ids) % 2 == 0:
+            core.SimClock.current.jump_back()  # the new process starts with the clock set back
+            ctx.fault("clock_set_back")
         B.model = build_model(ctx.cfg, lib=B.lib)
         B.factory = B.model
         B.forget_rosters()
@@ -1580,7 +1585,7 @@ class StoreDriver:
         self.A.ensure(flat(names))
         tau_eff = dec(inner["tau"]) if "tau" in inner else dec(ctx.cfg["kwargs"]["tau"])
         lim_eff = inner["limit_sigma"] if "limit_sigma" in inner else bool(ctx.cfg["kwargs"]["limit_sigma"])
-        self.B.reseed_out_of_domain(names, tau_zero=(tau_eff == 0), limit=bool(lim_eff))
+        self.B.reseed_out_of_domain(names, tau_zero=(tau_eff * tau_eff == 0), limit=bool(lim_eff))
         teams = self.B.teams_of(names)
         kw = rate_kwargs(inner)
         lc = S.LineCounter(crash_at=op["at"])
@@ -1650,7 +1655,7 @@ def _op_ABORT(self, op):
     fired = []
     for L in (self.A, self.B):
         L.ensure(flat(names))
-        L.reseed_out_of_domain(names, tau_zero=(tau_eff == 0), limit=bool(inner["limit_sigma"] if "limit_sigma" in inner else ctx.cfg["kwargs"]["limit_sigma"]))
+        L.reseed_out_of_domain(names, tau_zero=(tau_eff * tau_eff == 0), limit=bool(inner["limit_sigma"] if "limit_sigma" in inner else ctx.cfg["kwargs"]["limit_sigma"]))
         teams = L.teams_of(names)
         lc = S.LineCounter(crash_at=op["at"])
         st, val = lc.run(lambda: L.model.rate(teams, **dict(kw)))
@@ -1764,7 +1769,7 @@ def _op_DEEPCOPY_HISTORY(self, op):
         # the containers vary: list / tuple / dict values for the history, list / tuple for live
         k = len(struct) % 3
         h = list(hist) if k == 0 else tuple(hist) if k == 1 else {i: x for i, x in enumerate(hist)}
-        struct.append({"history": h, "live": [live] if k != 1 else (live,)})
+        struct.append({"history": h, "live": [live] if k != 1 else (live,), "again": (live,) if k == 0 else [live] if k == 1 else {"x": live}})
         hist.append(copy.deepcopy(live))
         del hist[:-3]
     if not struct:
@@ -1777,6 +1782,16 @@ def _op_DEEPCOPY_HISTORY(self, op):
         return list(c.values()) if isinstance(c, dict) else list(c)
 
     for a, b in zip(struct, cp):
+        # the live object is reachable a second time through another container: that copy
+        # must hold the same fields (whether it is the same object as the first copy is not
+        # something the property speaks about)
+        for p, q in zip(items(a["again"]), items(b["again"])):
+            if p is q:
+                ctx.violation("C20/deepcopy:identity", {"names": op["names"], "where": "again"})
+            for f in ("mu", "sigma", "name", "id"):
+                y, x = getattr(q, f, "<missing>"), getattr(p, f, None)
+                if not same_value(x, y):
+                    ctx.violation("C20/deepcopy:%s" % f, {"orig": repr(x), "copy": repr(y), "where": "again"})
         for key in ("history", "live"):
             if (b[key] is a[key] and len(a[key]) > 0 and not isinstance(a[key], tuple)) or type(b[key]) is not type(a[key]) or len(b[key]) != len(a[key]):
                 ctx.violation("C20/deepcopy:nested_inner", {"names": op["names"]})
